@@ -12,6 +12,9 @@ EXPR_KINDS = {
 }
 
 
+CONST_RESOLVER = None  # set by facts.load: def path of a constant -> its integer value (None when unknown / not an integer)
+
+
 def is_node(x):
     return isinstance(x, list) and len(x) >= 2 and isinstance(x[0], str) and x[0] in EXPR_KINDS and isinstance(x[1], int)
 
@@ -127,6 +130,12 @@ def lit(n):
     n = peel(n)
     if is_node(n) and n[0] == "lit":
         return tuple(n[2])
+    if is_node(n) and n[0] == "path" and CONST_RESOLVER is not None and len(n) > 3 and isinstance(n[3], str) and "Const" in n[3]:
+        # a named integer constant of the analysed tree stands for its value (`HEADER_SIZE_LONG` is 12): replacing a literal by a
+        # constant, or the reverse, is not a change of behaviour
+        v = CONST_RESOLVER(n[2])
+        if v is not None:
+            return ("int", str(v))
     if is_node(n) and n[0] == "cast":
         return lit(n[2])
     if is_node(n) and n[0] == "un" and n[2] == "Neg":
